@@ -790,8 +790,8 @@ impl Stream for Aes {
                         f2.csize += more;
                         f2.tail_layout = true;
                         let info = format!("ae{ver}/{bits}/m{method}/len{len}/declared+{more}");
-                        // a decoder that finds its end-of-stream marker never asks for the missing bytes
-                        g.push("read.inflated-size", read_line(if method == 8 { "oklegit" } else { "err" }, &info, &f2, bits, f2.csize as u64, Some(&pw), &b.enc.inner, &plain, "16"));
+                        // (for a compressed entry the missing bytes are asked for when the decoder reports its end)
+                        g.push("read.inflated-size", read_line("err", &info, &f2, bits, f2.csize as u64, Some(&pw), &b.enc.inner, &plain, "16"));
                         g.push("layer.inflated-size", layer_line("err", &info, bits, f2.csize as u64, &f2.body, &pw, &b.enc.inner, "16", "3"));
                     }
                     // shorter than salt + 2 + 10
@@ -948,7 +948,8 @@ impl Stream for Aes {
             }
         }
 
-        // ---- H. entries larger than the decoder's 32 KiB input buffer
+        // ---- H. entries larger than the decoder's 32 KiB input buffer (regression tests for D12: a
+        // ciphertext flip that ends the compressed stream early must still fail at end-of-file)
         for (ver, bits, method) in [(2u16, 256usize, 8u16), (1, 128, 8), (2, 192, 0), (1, 256, 0)] {
             let mut r = next_rng();
             let pw = b"helloworld".to_vec();
@@ -1054,27 +1055,7 @@ impl Stream for Aes {
                     "plain" => if !resp.contains(&ok_plain) { fail("right password did not yield exactly the original bytes".into()); },
                     "pwreq" => if !resp.ends_with("file=err passwordrequired") { fail("no password did not yield the password-required error".into()); },
                     "wrongpw" => if is_ok { fail("a wrong password was accepted and data returned".into()); },
-                    "tamper" => if is_ok {
-                        // AES record of the central extra field: version and inner method
-                        let extra = get_hex(&a, "extra").unwrap_or_default();
-                        let (mut ver, mut inner) = (0u16, 0u16);
-                        let mut o = 0usize;
-                        while o + 4 <= extra.len() {
-                            if extra[o] == 0x01 && extra[o + 1] == 0x99 && o + 11 <= extra.len() {
-                                ver = u16::from_le_bytes([extra[o + 4], extra[o + 5]]);
-                                inner = u16::from_le_bytes([extra[o + 9], extra[o + 10]]);
-                                break;
-                            }
-                            o += 4 + u16::from_le_bytes([extra[o + 2], extra[o + 3]]) as usize;
-                        }
-                        let info = a.get("info").cloned().unwrap_or_default();
-                        if inner != 0 && ver == 2 && info.contains("/flip-ct") {
-                            fail(format!("D12 mac-unchecked-at-early-decoder-eof: AE-2 entry with compressing inner method {inner}: a ciphertext change \
-                                          was read to end-of-file without an error ({})", resp.split(" h=").next().unwrap_or("")));
-                        } else {
-                            fail("a modified non-empty entry was read to end-of-file without an error".into());
-                        }
-                    },
+                    "tamper" => if is_ok { fail("a modified non-empty entry was read to end-of-file without an error".into()); },
                     "emptytamper" => if is_ok && !resp.contains("read=ok len=0 ") { fail("empty entry returned data".into()); },
                     "crcerr" => if !resp.contains("read=err io:other") { fail("AE-1 entry with a wrong CRC was not rejected with the checksum error".into()); },
                     "err" | "rejected" => if is_ok { fail("a malformed / truncated / refused entry was read successfully".into()); },
